@@ -153,6 +153,19 @@ def floordiv_int(a, b):
     return If(b > 0, a / b, (-a) / (-b))      # z3 Int '/' is Euclidean div; for positive divisor == floor
 
 
+# membership in a sequence prefix: seq_has(arr, n, v)  <=>  exists j in [0, n): v == arr[j]   (Python ==)
+# defined by recursion on n; specs instantiate the two defining equations where they need them
+seq_has = Function('seq_has', SeqArr, IntSort(), Val, BoolSort())
+
+
+def seq_has_base(arr, v):
+    return Not(seq_has(arr, IntVal(0), v))
+
+
+def seq_has_step(arr, i, v):
+    return seq_has(arr, i + 1, v) == Or(seq_has(arr, i, v), py_eq(v, Select(arr, i)))
+
+
 floorq = Function('floorq', RealSort(), RealSort(), IntSort())      # floor(a/b) for reals, b != 0
 
 
